@@ -141,7 +141,7 @@ func rulePurgerGuards(r *Report, rule string) {
 	r.Ob(rule, fi.Name+"/remove-under-rootLock", c.Pos(), lockHeldAt(g, info, c, "rootLock", "R"), "the three maps are consulted and the file removed with rootLock held")
 	// removed path is built from the tested name
 	if nameObj != nil {
-		r.Ob(rule, fi.Name+"/removes-the-tested-name", c.Pos(), usesObj(info, c.Args[0], nameObj), "the path removed is built from the very name that passed the three tests")
+		r.Ob(rule, fi.Name+"/removes-the-tested-name", c.Pos(), usesObj(info, c.Args[0], nameObj) || d.SliceOfExpr(c.Args[0])[varKeyOf(nameObj.(*types.Var))], "the path removed is built from the very name that passed the three tests (directly or through locals)")
 	}
 	// loadZapFileNames covers every snapshot and every segment bucket
 	lf := p.MustFunc("index/scorch.(*Scorch).loadZapFileNames")
@@ -169,12 +169,13 @@ func rulePurgerGuards(r *Report, rule string) {
 		}
 		nstore++
 		bad := ""
-		for _, f := range lg.GuardsOf(as) {
+		for _, f := range lg.RawGuardsOf(as) {
 			if _, _, isNil := nilTest(linfo, f.Expr); isNil {
 				continue
 			}
 			s := exprStr(f.Expr)
-			if strings.Contains(s, "BoltInternalKey") && !f.Truth {
+			if be, ok := ast.Unparen(f.Expr).(*ast.BinaryExpr); ok && strings.Contains(s, "BoltInternalKey") &&
+				((be.Op == token.EQL && !f.Truth) || (be.Op == token.NEQ && f.Truth)) {
 				continue
 			}
 			bad = f.String()
